@@ -174,6 +174,88 @@ def run(ck):
             if ck.mine(n):
                 lv, _ = walk.explore(lambda: walk.Scenario(base + n, mons), trig, leaf, max_leaves=cap, dup_budget=budget)
                 ck.count('dup.exhaustive_leaves', lv)
+
+    # (a2) held-back DELETE of the rekeyed IKE_SA: the successor ends first, THEN late copies of the rekey messages arrive
+    n2 = 0
+    for x in 'AB':
+        for killer in 'AB':
+            for how in ('delete', 'timeout', 'delete-direct', 'timeout-direct'):
+                for order in range(3):
+                    n2 += 1
+                    if not ck.mine(n2):
+                        continue
+                    sc = walk.Scenario(base + 7000 + n2, mons)
+                    sim = sc.sim
+                    sim.case['family'] = ('held-delete', x, killer, how, order)
+                    sim.direct_dispatch = how.endswith('direct')
+                    how = how.split('-')[0]
+                    sc.trigger(x, 'rekey_ike')
+                    req_copy = sc.dup(0)
+                    held = [sim.net.pop(sim.net.index(req_copy))]
+                    sc.deliver(0)                       # rekey request -> responder (now REKEYED)
+                    resp_copy = sc.dup(0)
+                    held.append(sim.net.pop(sim.net.index(resp_copy)))
+                    sc.deliver(0)                       # rekey response -> initiator (now DEL_AFTER_REKEY), emits DELETE(old)
+                    held += [sim.net.pop(0) for _ in range(len(sim.net))]      # hold the DELETE of the old IKE_SA
+                    # the successor ends
+                    kep = sc.ep(killer)
+                    succ = [q for q in kep.ctl.ike_sas if q.state == State.ESTABLISHED]
+                    if not succ:
+                        ck.count('held.setup_failed')
+                        continue
+                    succ[0].delete_ike_sa_at = sim.clock.t - 1
+                    kep.step('tick')
+                    if how == 'delete':
+                        sim.drain()
+                    else:
+                        sim.net.clear()                 # the peer never hears of it: the killer times out
+                        for _ in range(12):
+                            sim.clock.advance(2.1)
+                            kep.step('tick')
+                            held += [sim.net.pop(0) for _ in range(len(sim.net))] if False else []
+                            sim.net.clear()
+                    # late copies and the held DELETE arrive, in one of three orders
+                    seq = {0: [0, 1, 2], 1: [1, 0, 2], 2: [2, 0, 1]}[order]
+                    for i in seq:
+                        if i < len(held):
+                            d = held[i]
+                            sim.case['actions'].append(('late', i))
+                            sim.inject(sim.addr2ep[d.dst], d.src, d.dst, d.data)
+                            sim.drain()
+                    leaf(sc, None)
+                    ck.count('held.leaves')
+
+    # (a3) every request kind left unanswered: the IKE_SA must leave the table when its retransmissions are exhausted
+    kinds = ['acquire', 'expire_soft', 'expire_hard', 'rekey_ike', 'delete_ike', 'dpd', 'rekey_then_lost_delete']
+    n3 = 0
+    for x in 'AB':
+        for kind in kinds:
+            for dt in (1.1, 3.7):
+                n3 += 1
+                if not ck.mine(n3):
+                    continue
+                sc = walk.Scenario(base + 9000 + n3, mons)
+                sim = sc.sim
+                sim.case['family'] = ('unanswered', x, kind, dt)
+                ep = sc.ep(x)
+                if kind == 'rekey_then_lost_delete':
+                    sc.trigger(x, 'rekey_ike')
+                    sc.deliver(0)
+                    sc.deliver(0)
+                else:
+                    sc.trigger(x, kind)
+                sim.net.clear()
+                for _ in range(int(70 / dt)):
+                    sim.clock.advance(dt)
+                    ep.step('tick')
+                    sim.net.clear()
+                left = [q.state.name for q in ep.ctl.ike_sas if q.state.name.endswith('_REQ_SENT')]
+                ck.count('unanswered.histories')
+                ck.nontrivial(('unanswered', x, kind, dt))
+                if left:
+                    ck.violation(f'table-keeps-ike-sa-beyond-retransmission-timeout:{left[0]}:unanswered-{kind}', {'left': left, 'trace': sim.trace[-8:]}, sim.case)
+                check_status(ck, sim, ep)
+
     # sampled: up to 3 duplicates, random schedule
     nw = 900 if not ck.thorough() else 30000
     rng = ck.rng('dupwalk', ck.shard[0])
@@ -181,11 +263,18 @@ def run(ck):
         if not ck.mine(w):
             continue
         sc = walk.Scenario(base + 31 * w, mons)
+        sc.sim.direct_dispatch = w % 3 == 2
+        sc.sim.case['direct_dispatch'] = sc.sim.direct_dispatch
         trig = list(rng.choice(lists))
         dups = 0
+        held = []
         while trig or sc.sim.net:
             opts = list(range(len(sc.sim.net)))
             r = rng.random()
+            if opts and len(held) < 3 and r > 0.93:
+                sc.sim.case['actions'].append(('hold', opts[-1]))
+                held.append(sc.sim.net.pop(rng.choice(opts)))
+                continue
             if trig and (not opts or r < 0.3):
                 sc.trigger(*trig.pop(0))
             elif opts and dups < 3 and r < 0.55:
@@ -193,6 +282,22 @@ def run(ck):
                 dups += 1
             elif opts:
                 sc.deliver(rng.choice(opts))
+        if held:
+            # while some datagrams are still held back, an established IKE_SA (possibly a successor) may end
+            if rng.random() < 0.6:
+                kep = sc.ep(rng.choice('AB'))
+                est = [q for q in kep.ctl.ike_sas if q.state == State.ESTABLISHED]
+                if est:
+                    sc.sim.case['actions'].append(('end-established', kep.name))
+                    est[-1].delete_ike_sa_at = sc.sim.clock.t - 1
+                    kep.step('tick')
+                    sc.sim.drain()
+            rng.shuffle(held)
+            for d in held:
+                sc.sim.case['actions'].append(('release',))
+                sc.sim.inject(sc.sim.addr2ep[d.dst], d.src, d.dst, d.data)
+                sc.sim.drain()
+            ck.count('dup.walks_with_held_datagrams')
         # late copies: re-inject recorded datagrams after everything settled
         sc.settle()
         for (nn, s_, d_, data) in rng.sample(sc.sim.wire, min(4, len(sc.sim.wire))):
@@ -341,4 +446,6 @@ def verdict(ck):
     ck.floor('status queries', ck.counters['status.queries'], 1000)
     ck.floor('expire notices', ck.counters['expire.checked'], 100)
     ck.floor('SPI collision set-ups', ck.counters['collision.setups'], 6)
+    ck.floor('held-DELETE histories', ck.counters['held.leaves'], 40)
+    ck.floor('unanswered-request histories', ck.counters['unanswered.histories'], 25)
     return None
